@@ -86,8 +86,20 @@ func devMain(args []string) {
 		allCovers = append(allCovers, e.covers...)
 	}
 	var covers []*Obligation
-	for _, name := range v.contractedFuncs() {
-		_ = name
+	if *only == "" || strings.Contains(*only, "lemma") {
+		for _, pr := range []string{"C02", "C06", "C07", "C14", "C15"} {
+			for _, o := range v.lemmaObligations(pr) {
+				dup := false
+				for _, x := range obls {
+					if x.Name == o.Name {
+						dup = true
+					}
+				}
+				if !dup {
+					obls = append(obls, o)
+				}
+			}
+		}
 	}
 	var wg sync.WaitGroup
 	coverRes := map[string]string{}
